@@ -36,6 +36,9 @@ fn faults() -> Vec<(&'static str, E)> {
         ("kind/object<int", binop("<", go(), int(1))), ("kind/int*object", binop("*", int(2), go())), ("kind/bool+bool", binop("+", E::Bool(true), E::Bool(true))),
         ("print/too-few", print("~", vec![])), ("print/too-many", print("x", vec![int(1)])), ("print/two-one", print("~ ~", vec![int(1)])),
         ("print/partial", print("a~b~c", vec![int(1)])),
+        // escaped tildes print a literal ~ and consume no argument: they do not change the count
+        ("print/too-many-next-to-escaped-tilde", print("75\\~ ~", vec![int(1), int(2)])), ("print/too-few-next-to-escaped-tilde", print("\\~ ~ ~", vec![int(1)])),
+        ("print/only-escaped-tilde-with-argument", print("\\~", vec![int(1)])), ("print/bad-escape", print("a\\qb", vec![])),
         ("div/zero", binop("/", int(1), int(0))), ("mod/zero", binop("%", int(1), int(0))), ("div/min-1", binop("/", int(i32::MIN), int(-1))),
         ("div/zero-method", mcall(int(5), "/", vec![int(0)])),
         ("unknown-method/object==", binop("==", go(), int(1))), ("unknown-method/object!=null", binop("!=", go(), E::Null)),
